@@ -69,6 +69,9 @@ def step (n : Naming) (ws : List String) : Naming × String :=
   | "raftrm" :: rest =>
     let i := instOf rest
     (n.raftRemove (parseSKey (kv rest "svc")) i.short now, "ok")
+  | "probe" :: rest =>
+    let i := instOf rest
+    (n.probe (parseSKey (kv rest "svc")) i.short (kv rest "ok" == "1"), "ok")
   | "rmclient" :: c :: _ =>
     let n2 := n.removeClient c now
     (n2, s!"ok before={allInstances n} after={allInstances n2}")
@@ -258,6 +261,13 @@ def specOp (s0 : SpecSt) (op ans : List String) : SpecSt × String :=
         else none
     (s, match bad with | some m => "spec FAIL " ++ m | none => "spec ok")
   | "del" :: _ => ({ s with ruled := false }, "-")
+  | "probe" :: rest =>
+    -- the TCP probe of a host, the health check of persistent instances: a failed probe may mark the instance at the
+    -- host unhealthy (no demand on its health from then on); it never removes anything, and the heartbeat clock must
+    -- still leave a persistent instance alone
+    let key := s!"{kv rest "svc"}@{kv rest "ip"}:{kv rest "port"}"
+    (if kv rest "ok" == "1" then s else
+      { s with tracked := s.tracked.map fun t => if t.key == key then { t with healthyReg := false } else t }, "-")
   | "raftrm" :: rest =>
     -- the committed removal of a persistent record: an instance that is ephemeral now must stay (C12: no registered
     -- address is missing); judged on the next `all` through the time line (the entry is kept if it is ephemeral)
